@@ -198,6 +198,12 @@ func c12Gen(g *core.Gen) {
 	for d := 60; d <= 130; d++ {
 		g.Emit(&c12Case{Kind: "partition", Len: 4096, D: d, P: 1, GLo: 1, GHi: 4})
 	}
+	// the DEFAULT goroutine count (option 0 / negative: derived from the machine) under every GOMAXPROCS 1..4 and 16
+	for _, procs := range []int{1, 2, 3, 4, 16} {
+		for _, gg := range []int{0, -1} {
+			g.Emit(&c12Case{Kind: "par2g", G: gg, Procs: procs})
+		}
+	}
 	for gg := 1; gg <= 12; gg++ {
 		g.Emit(&c12Case{Kind: "par2g", G: gg})
 		g.Emit(&c12Case{Kind: "par2g", G: gg, NoSSSE3: true})
@@ -235,6 +241,10 @@ func c12Run(ci interface{}, r *core.Rec) {
 			r.NontrivialCase()
 		}
 	case "par2g":
+		if c.Procs > 0 {
+			old := runtime.GOMAXPROCS(c.Procs)
+			defer runtime.GOMAXPROCS(old)
+		}
 		n := 0
 		for _, cfg := range []struct {
 			sizes         []int
@@ -290,7 +300,7 @@ func init() {
 		Level:   "model_checking",
 		Rule: "(i) partition arithmetic, full product through the real GenerateParity/ReconstructData: every even shard length 2..600 (+1024..65550) x goroutine count 1..40 (and > number of 16-byte units) x codes (2,2),(3,2), and every even length 2..200 x g 1..16 x codes (6,5),(9,8) (several missing rows per goroutine), compared with g=1; every row count 1..40 x 64 KiB shards and 60..130 x 4 KiB shards x g 1..3; the (3,2) code also with every input shard displaced to an odd address inside a larger buffer; " +
 			"(ii) controlled-scheduler exploration of the real worker goroutines (sources instrumented from the current tree and injected with go build -overlay): for encode and reconstruct configurations (workers x kernel calls), EVERY interleaving at kernel-call/synchronisation granularity (unbounded), and every interleaving with <=2 (thorough 3) preemptions at statement granularity; per execution: output == single-goroutine bytes, recorded kernel access sets of different workers conflict-free, no deadlock; " +
-			"(iii) Create / Repair through par2 for g in 1..12 byte-identical to g=1; (iv) the same bodies free-running under the race detector (separate -race build, GOMAXPROCS 1,2,4,16). non-trivial = executions with >=2 runnable threads at some choice point / g>1 cases",
+			"(iii) Create / Repair through par2 for g in 1..12, and for the default count (option 0 / -1) under GOMAXPROCS {1,2,3,4,16}, byte-identical to g=1; (iv) the same bodies free-running under the race detector (separate -race build, GOMAXPROCS 1,2,4,16). non-trivial = executions with >=2 runnable threads at some choice point / g>1 cases",
 		Assumptions: []string{"the controlled scheduler is sequentially consistent; weak-memory effects are covered only by the race-detector pass (no race => SC)", "scheduling points: spawn, exit, WaitGroup/Mutex operations, kernel calls, and (statement granularity) every statement of the instrumented files"},
 		NewCase:     func() interface{} { return &c12Case{} },
 		Gen:         c12Gen,
